@@ -31,7 +31,8 @@ func (c15) Info() core.Info {
 			"without base, fail-mode succeeds <=> reporting mode succeeds with an empty ValidationErrors(); every error returned by the default and reporting parsers has a documented " +
 			"errors.Type and errors.Failure = true; every entry of ValidationErrors() on a successfully parsed URL has Failure = false and a documented type; every error returned in " +
 			"fail mode has a documented non-empty type. The documented set is read at run time from the constant declarations of /repo/errors/codes.go. " +
-			"Non-trivial: at least one configuration produced a URL or a validation entry; distinct by (input, base).",
+			"For a quarter of the inputs every parse is made twice and the second result judged (parsers that remember their last input); 'shared-base': several references are resolved against ONE reporting-mode base value, " +
+			"after which the entries recorded on an earlier accepted result and on the base must be unchanged and non-fatal. Non-trivial: at least one configuration produced a URL or a validation entry; distinct by (input, base).",
 		Assumptions: []string{"errors returned in fail mode may carry Failure=false (the option exists to return non-fatal validation errors)", "agreement of the validation errors with the standard's is not demanded"},
 		MinDistinct: map[string]int{"quick": 100000, "thorough": 1000000},
 	}
